@@ -1,6 +1,7 @@
 import Dm.Driver.FmtCmd
 import Dm.Driver.FmtXCmd
 import Dm.Driver.SplitCmd
+import Dm.Driver.ErrCmd
 
 /- Line-protocol driver of the Lean model: one request per line, one answer per line. -/
 
@@ -11,6 +12,7 @@ def handle (line : String) : String :=
   match l.splitOn " " with
   | "fmt" :: args => Dm.FmtCmd.cmdFmt args
   | "std" :: args => Dm.FmtCmd.cmdStd args
+  | "es" :: args => Dm.ErrCmd.cmdEs args
   | _ => "bad-op"
 
 partial def loop (h : IO.FS.Stream) (out : IO.FS.Stream) : IO Unit := do
